@@ -454,7 +454,7 @@ func genExchange23(rng *hk.Rand) exSpec {
 			if len(rs.Interim) > 0 { // 103 Early Hints: sent by the handler as an informational HEADERS block
 				ex.Resps[k].Interim, ex.Resps[k].Early103 = nil, true
 			}
-			if rs.EarlyFinal || rs.Truncate > 0 {
+			if rs.EarlyFinal || rs.Truncate > 0 || rs.Fault == "bad-chunk" || rs.Fault == "bad-trailer" {
 				ok = false
 			}
 		}
@@ -620,6 +620,13 @@ func pairs23(r *hk.Run, rng *hk.Rand, count int, st stack) {
 			p := h23PartsOf(w, resps[k], method, on.Res.Body, final, on.Res.Err)
 			p.Warm = ex.Warm && k == 0
 			p.After = isAfter
+			if final && len(on.Reads) > 0 {
+				p.Reads = on.Reads
+				if l := on.Reads[len(on.Reads)-1]; l.St == "RFail" {
+					r.Count(fmt.Sprintf("response-body Read delivered data together with an error=%v", len(l.Data) > 0))
+				}
+				p.RespEOF = on.Reads[len(on.Reads)-1].St == "REnd"
+			}
 			xs = append(xs, p)
 			if w.Aborted {
 				r.Count(fmt.Sprintf("%s.upload-abandoned(sent<body=%v)", st.name, len(p.ReqBody) < ex.BodyLen))
